@@ -129,7 +129,7 @@ func (g *Gen) instr(f *Frame, ci *cfgInfo, b *ssa.BasicBlock, ins ssa.Instructio
 		f.exits = append(f.exits, Exit{en: f.en, st: f.st.clone(), results: rs})
 	case *ssa.Panic:
 		pv := g.val(f, i.X)
-		f.panics = append(f.panics, Exit{en: f.en, st: f.st.clone(), pval: pv.S})
+		f.panics = append(f.panics, Exit{en: f.en, st: f.st.clone(), pval: pv.S, ndefers: len(f.defers), blk: f.curBlock})
 	default:
 		unsupp("instruction %T", ins)
 	}
